@@ -175,6 +175,44 @@ func init() {
 		_, err := ap.CopyItemProperties(validNote(), it)
 		return errClass(err), "none"
 	}
+	boolClass := func(b bool) string {
+		if b {
+			return "true"
+		}
+		return "false"
+	}
+	vid := ap.IRI("https://example.com/eq/1")
+	topHelpers["Object.Equals"] = func(it ap.Item) (string, string) {
+		return boolClass(ap.Object{ID: vid, Type: ap.NoteType}.Equals(it)), "none"
+	}
+	topHelpers["Actor.Equals"] = func(it ap.Item) (string, string) {
+		return boolClass(ap.Actor{ID: vid, Type: ap.PersonType, Inbox: ap.IRI(vid + "/inbox")}.Equals(it)), "none"
+	}
+	topHelpers["Activity.Equals"] = func(it ap.Item) (string, string) {
+		return boolClass(ap.Activity{ID: vid, Type: ap.CreateType, Object: ap.IRI(vid + "/o")}.Equals(it)), "none"
+	}
+	topHelpers["IntransitiveActivity.Equals"] = func(it ap.Item) (string, string) {
+		return boolClass(ap.IntransitiveActivity{ID: vid, Type: ap.ArriveType, Actor: ap.IRI(vid + "/a")}.Equals(it)), "none"
+	}
+	topHelpers["Link.Equals"] = func(it ap.Item) (string, string) {
+		return boolClass(ap.Link{ID: vid, Type: ap.LinkType, Href: vid}.Equals(it)), "none"
+	}
+	topHelpers["Collection.Equals"] = func(it ap.Item) (string, string) {
+		return boolClass(ap.Collection{ID: vid, Type: ap.CollectionType, Items: ap.ItemCollection{vid}}.Equals(it)), "none"
+	}
+	topHelpers["OrderedCollection.Equals"] = func(it ap.Item) (string, string) {
+		return boolClass(ap.OrderedCollection{ID: vid, Type: ap.OrderedCollectionType, OrderedItems: ap.ItemCollection{vid}}.Equals(it)), "none"
+	}
+	topHelpers["CollectionPage.Equals"] = func(it ap.Item) (string, string) {
+		return boolClass(ap.CollectionPage{ID: vid, Type: ap.CollectionPageType, Items: ap.ItemCollection{vid}}.Equals(it)), "none"
+	}
+	topHelpers["OrderedCollectionPage.Equals"] = func(it ap.Item) (string, string) {
+		return boolClass(ap.OrderedCollectionPage{ID: vid, Type: ap.OrderedCollectionPageType, OrderedItems: ap.ItemCollection{vid}}.Equals(it)), "none"
+	}
+	topHelpers["ItemCollection.Equals"] = func(it ap.Item) (string, string) {
+		return boolClass(ap.ItemCollection{vid}.Equals(it)), "none"
+	}
+	topHelpers["IRI.ItemsMatch"] = func(it ap.Item) (string, string) { return boolClass(vid.ItemsMatch(it)), "none" }
 	topHelpers["MarshalJSON"] = func(it ap.Item) (string, string) { _, err := ap.MarshalJSON(it); return errClass(err), "none" }
 	topHelpers["GobEncode"] = func(it ap.Item) (string, string) { _, err := ap.GobEncode(it); return errClass(err), "none" }
 	topHelpers["CollectionPath.IRI"] = func(it ap.Item) (string, string) { ap.Inbox.IRI(it); ap.Likes.IRI(it); return "neutral", "none" }
@@ -293,10 +331,14 @@ var containerHelpers = map[string]func(c ap.Item) string{
 		}
 		return "neutral"
 	},
-	"DerefItem": func(c ap.Item) string { ap.DerefItem(c); return "neutral" },
-	"OnItem":    func(c ap.Item) string { ap.OnItem(c, func(ap.Item) error { return nil }); return "neutral" },
-	"NotEmpty":  func(c ap.Item) string { ap.NotEmpty(c); return "neutral" },
-	"Format":    func(c ap.Item) string { _ = fmt.Sprintf("%s %v %q", c, c, c); return "neutral" },
+	"ToIRIs":             func(c ap.Item) string { _, err := ap.ToIRIs(c); return errClass(err) },
+	"OnIRIs":             func(c ap.Item) string { return errClass(ap.OnIRIs(c, func(*ap.IRIs) error { return nil })) },
+	"CollectionPath.IRI": func(c ap.Item) string { ap.Inbox.IRI(c); ap.Likes.IRI(c); return "neutral" },
+	"CollectionPath.Of":  func(c ap.Item) string { ap.Inbox.Of(c); ap.Likes.Of(c); return "neutral" },
+	"DerefItem":          func(c ap.Item) string { ap.DerefItem(c); return "neutral" },
+	"OnItem":             func(c ap.Item) string { ap.OnItem(c, func(ap.Item) error { return nil }); return "neutral" },
+	"NotEmpty":           func(c ap.Item) string { ap.NotEmpty(c); return "neutral" },
+	"Format":             func(c ap.Item) string { _ = fmt.Sprintf("%s %v %q", c, c, c); return "neutral" },
 }
 
 func init() {
